@@ -106,6 +106,15 @@ func c09Run(e *core.Env) {
 	if e.Thorough() {
 		plans = []plan{{c09Alphabet([]string{"2020-01-31", "2020-03-02"}), 3}}
 	}
+	// same-day twins (same description, same accounts) that differ only in the amount:
+	// the order of the day is decided by the amounts alone. The amounts have the same
+	// number of decimals but different numbers of significant digits once printed, and
+	// coefficients around 2^63 and 2^64.
+	var twins []jr.Dir
+	for _, q := range []string{"10.000000000000000000", "2.500000000000000000", "9.223372036854775807", "9.223372036854775808", "18.446744073709551616", "1.000000000000000000", "0.500000000000000001", "18446744073709551616", "3"} {
+		twins = append(twins, jr.T("2020-01-31", "twin", jr.B(accOpening, accChecking, q, "CHF")))
+	}
+	plans = append(plans, plan{twins, 3})
 	for _, pl := range plans {
 		e.Note("journal alphabet %d symbols, depth <= %d", len(pl.alpha), pl.n)
 		forEachSeq(e, pl.alpha, pl.n, func(seq []jr.Dir) {
